@@ -72,7 +72,7 @@ class Harness:
     def make_exc(self, kind, sc):
         import cherrypy
         if kind == 'HTTPError':
-            return cherrypy.HTTPError(503 if sc['http5'] else 409, 'injected ' + MARK)
+            return cherrypy.HTTPError(503 if sc['http5'] else 409, 'injected on purpose')   # its message is meant for the client
         if kind == 'HTTPRedirect':
             return cherrypy.HTTPRedirect('/elsewhere')
         if kind == 'InternalRedirect':
@@ -88,6 +88,15 @@ class Harness:
         if kind == 'FromServer':
             return ServerError('server ' + MARK)
         raise ValueError(kind)
+
+    def kind_of(self, e):
+        import cherrypy
+        for cls, k in ((cherrypy.HTTPError, 'HTTPError'), (cherrypy.HTTPRedirect, 'HTTPRedirect'),
+                       (cherrypy.InternalRedirect, 'InternalRedirect'), (KeyboardInterrupt, 'KeyboardInterrupt'),
+                       (SystemExit, 'SystemExit'), (StopIteration, 'StopIteration'), (ServerError, 'FromServer')):
+            if isinstance(e, cls):
+                return k
+        return 'Exception'
 
     # ---- instrumentation ---------------------------------------------------------------------
     def install(self):
@@ -135,10 +144,16 @@ class Harness:
         orig_run = _cprequest.HookMap.run
 
         def hook_run(hm, point):
-            if H.active:
-                H.log.append(['RunHooks ' + POINT_COQ[point], H.req_no(), []])
-                H.cur_hook_entry = H.log[-1]
-            return orig_run(hm, point)
+            if not H.active:
+                return orig_run(hm, point)
+            entry = ['RunHooks ' + POINT_COQ[point], H.req_no(), []]
+            H.log.append(entry)
+            H.cur_hook_entry = entry
+            try:
+                return orig_run(hm, point)
+            except BaseException as e:
+                H.hook_raised.append([POINT_COQ[point], entry[1], H.kind_of(e)])
+                raise
         patch(_cprequest.HookMap, 'run', hook_run)
 
         orig_load, orig_clear = cherrypy.serving.load, cherrypy.serving.clear
@@ -157,6 +172,31 @@ class Harness:
                 H.log.append(['ClearServing', H.req_no()])
             orig_clear()
         patch(type(cherrypy.serving), 'clear', lambda s: clear())
+
+        # the class-default request that sits in the serving slot between requests: steady state = closed
+        # (model: M_flow.init_ids)
+        patch(type(cherrypy.serving).request, 'closed', True)
+
+        orig_close = _cpwsgi.AppResponse.close
+
+        def app_close(ar):
+            if not H.active:
+                return orig_close(ar)
+            in_init = not hasattr(ar, 'write')          # close() called from __init__'s except clause
+            streaming = bool(cherrypy.serving.response.stream)
+            unset = not hasattr(ar, 'iter_response')
+            H.closes += 1
+            if streaming:
+                H.streaming_closes.append(H.closes)
+            try:
+                return orig_close(ar)
+            finally:
+                if in_init and streaming:
+                    k = H.counts.get('ReadIterResponse', 0)
+                    H.counts['ReadIterResponse'] = k + 1
+                    if unset:
+                        H.env_rules.append(['ReadIterResponse', k, 'Exception'])
+        patch(_cpwsgi.AppResponse, 'close', app_close)
 
         ob1 = _cprequest.bare_error
 
@@ -231,7 +271,11 @@ class Harness:
         class Req(_cprequest.Request):
             pass
         Req.hooks = hooks
-        conf = {'/': {'response.stream': bool(sc['stream'])}}
+        # show_tracebacks is set on the request object at load (the property's hypothesis is about the attribute)
+        # and in the config, so that the request namespace does not flip it back; tools.encode (on by default)
+        # is off so that the ResponseBody descriptor's refusal of str bodies is reachable
+        conf = {'/': {'response.stream': bool(sc['stream']), 'request.show_tracebacks': bool(sc['showtb']),
+                      'tools.encode.on': False}}
         if sc.get('error_page_fails'):
             def bad_page(**kw):
                 raise Injected('error page ' + MARK)
@@ -250,9 +294,11 @@ class Harness:
             def gen():
                 for i in range(n):
                     if sc['midstream'] is not None and i == sc['midstream'][0]:
+                        H.mid_at = H.next_calls - 1
                         raise H.make_exc(sc['midstream'][1], sc)
                     yield b'chunk%d' % i
                 if sc['midstream'] is not None and sc['midstream'][0] >= n:
+                    H.mid_at = H.next_calls - 1
                     raise H.make_exc(sc['midstream'][1], sc)
             return gen()
         if beh == 'bytes':
@@ -273,6 +319,10 @@ class Harness:
         self.install()
         self.sc = sc
         self.counts, self.log, self.raised, self.requests = {}, [], [], []
+        self.hook_raised = []        # (point, request, kind of the exception the hook point propagated)
+        self.next_calls, self.mid_at = 0, None
+        self.closes, self.streaming_closes = 0, []
+        self.env_rules = []          # failures of framework-internal steps, observed (inputs of the model's environment)
         self.cur_hook_entry = ['none', 0, []]
         app = self.build_app(sc)
         env, inp, _ = wsgi.build_environ(sc['method'], '/', [('Content-Length', '0')] if sc['method'] == 'POST' else [],
@@ -283,10 +333,14 @@ class Harness:
 
         def start_response(status, headers, exc_info=None):
             act = 'StartResponseExc' if exc_info else 'StartResponse'
+            n = H.counts.get(act, 0)
             H.hit(act)
-            res['start_calls'].append(bool(exc_info))
             if exc_info and res['chunks_sent']:
+                # PEP 3333: output has been sent already, the server re-raises the application's exception
+                H.env_rules.append([act, n, 'FromServer'])
+                res['reraised'] = exc_info[1]
                 raise exc_info[1]
+            res['start_calls'].append(bool(exc_info))      # completed calls only
             res['status_line'], res['headers'] = status, list(headers)
             return lambda d: None
         res['chunks_sent'] = False
@@ -304,6 +358,7 @@ class Harness:
                     while True:
                         if sc['abandon'] is not None and k >= sc['abandon']:
                             break
+                        H.next_calls += 1
                         try:
                             chunk = next(iterator)
                         except StopIteration:
@@ -316,7 +371,7 @@ class Harness:
                             res['chunks'].append(chunk)
                             res['chunks_sent'] = True
                 except BaseException as e:
-                    res['escaped'] = ['next', type(e).__name__]
+                    res['escaped'] = ['next', 'ServerError' if e is res.get('reraised') else type(e).__name__]
                 finally:
                     for _ in range(1 + sc['extra_close']):
                         try:
@@ -347,9 +402,10 @@ class Harness:
                 except UnicodeEncodeError:
                     res['problems'].append('non-latin-1 header')
         text = body.decode('latin-1')
+        self.last_body = text
         taint = (MARK in text) or ('Traceback (most recent call last)' in text) or ('File "' in text)
         reqs = len(self.requests)
-        return {'journal': self.log, 'status': status, 'taint': bool(taint), 'start_calls': res['start_calls'],
+        return {'streaming_closes': self.streaming_closes, 'env_rules': self.env_rules, 'hook_raised': self.hook_raised, 'mid_at': self.mid_at, 'journal': self.log, 'status': status, 'taint': bool(taint), 'start_calls': res['start_calls'],
                 'escaped': res['escaped'], 'nexts': res['nexts'], 'problems': res['problems'],
                 'raised': self.raised, 'requests': reqs, 'body_len': len(body)}
 
@@ -367,17 +423,21 @@ class Harness:
 
 class FlowCheck(core.Check):
     """common part of C01 / C09"""
-    model_fn = None            # run_session has 600 fuel: the kernel re-evaluation is done on a few small cases only
-    xcheck_n = 6
+    model_fn = ('run_session', 'Model.M_flowrun')    # kernel re-evaluation (vm_compute) of a few sampled sessions
+    xcheck_n = 8
 
     def setup(self):
         self.h = Harness()
         self.acode, self.fcode, _ = codes()
         self._obs = {}
         wsgi.quiet_cherrypy()
+        import logging
+        self._last_resort, logging.lastResort = logging.lastResort, None     # handler-less loggers stay silent
 
     def teardown(self):
         self.h.uninstall()
+        import logging
+        logging.lastResort = self._last_resort
 
     # ---- G: regenerate the skeletons from the sources and tie them to the hand-written ones -------
     def ties(self):
@@ -448,10 +508,12 @@ class FlowCheck(core.Check):
 
     # ---- model side -----------------------------------------------------------------------------
     def observe(self, sc):
-        key = id(sc)
-        if key not in self._obs:
-            self._obs[key] = self.h.run(sc)
-        return self._obs[key]
+        # the observation is cached ON the scenario object (never by id(): ids are recycled)
+        if not isinstance(sc, Scenario):
+            return self.h.run(sc)
+        if getattr(sc, '_obs', None) is None:
+            sc._obs = self.h.run(sc)
+        return sc._obs
 
     def encode(self, sc):
         obs = self.observe(sc)
@@ -460,32 +522,57 @@ class FlowCheck(core.Check):
         # the body iterator: its length and mid-stream failure are inputs of the scenario
         n_next = obs['nexts']
         ms = sc['midstream']
-        if sc['stream'] and ms is not None and self.model_reaches_stream(sc, obs):
-            rules.append([A['NextChunk'], ms[0], EXN[ms[1]]])
+        if obs['mid_at'] is not None:
+            # the handler's generator raised at this next() call (observed: whether the generator is the body
+            # that gets iterated depends on the whole run)
+            rules.append([A['NextChunk'], obs['mid_at'], EXN[ms[1]]])
         # after the last chunk the iterator is exhausted; an abandoning server stops asking
         rules.append([A['NextChunk'], n_next, EXN['StopIteration']])
         if sc['abandon'] is not None:
             rules.append([A['ServerNext'], sc['abandon'], EXN['StopIteration']])
         rules.append([A['ServerCloseAgain'], sc['extra_close'], EXN['StopIteration']])
+        for a, k, kind in obs['env_rules']:
+            rules.append([A[a], k, EXN[kind]])
+        # what the page handler returns: a str is refused by the ResponseBody descriptor (the assignment
+        # `response.body = self.handler()` fails); a non-iterable makes the following finalize() fail
+        if not sc['stream'] and sc['body'] == 'str':
+            for k in range(8):
+                rules.append([A['Handler'], k, EXN['Exception']])
+        if not sc['stream'] and sc['body'] == 'int':
+            for k in self.finalize_after_handler(obs):
+                rules.append([A['Finalize'], k, EXN['Exception']])
         trues = ['FHandlerSet', 'FStatusIsBytes', 'FHeaderKeyIsBytes', 'FHeaderValIsBytes']
         if sc['method'] == 'POST':
             trues.append('FProcessBody')
         if sc['method'] == 'HEAD':
             trues.append('FMethodHead')
-        if sc['stream']:
-            trues.append('FStreaming')
         if sc['http5']:
             trues.append('FHTTPError5xx')
-        if sc['redirect_to'] == '/':
-            trues.append('FVisitedBefore')
         hooks = []
         for p, lst in sc['hooks'].items():
             hooks.append([self.acode['RunHooks ' + POINT_COQ[p]] - self.acode['RunHooks OnStartResource'],
                           [[hid, prio, failsafe, EXN.get(beh, 0)] for hid, prio, failsafe, beh in lst]])
-        return [sc['showtb'], rules, [F[f] for f in trues], hooks]
+        # `new_uri in redirections`: the session starts at '/', every redirect goes to sc['redirect_to']
+        vfrom = 1 if sc['redirect_to'] == '/' else 2
+        return [sc['showtb'], rules, [F[f] for f in trues], hooks, vfrom, obs['streaming_closes']]
 
-    def model_reaches_stream(self, sc, obs):
-        return True
+    def finalize_after_handler(self, obs):
+        """occurrence numbers of the finalize() calls that see the page handler's own (non-iterable) return
+        value: the first finalize of a request after its handler returned, unless an error/redirect page
+        replaced the body in between"""
+        out, nfin, pending = [], 0, {}
+        for e in obs['journal']:
+            a, r = e[0], e[1]
+            if a == 'Handler':
+                pending[r] = True
+            elif a in ('SetResponseOfExc', 'ErrorResponse'):
+                pending[r] = False
+            elif a == 'Finalize':
+                if pending.get(r):
+                    out.append(nfin)
+                    pending[r] = False
+                nfin += 1
+        return out
 
     def impl(self, sc):
         return self.observe(sc)
